@@ -348,9 +348,9 @@ def _index_from_registry(hb, e):
         clo = closure_of(c["args"][0])
         if not clo or nm not in closure_param_names(clo):
             continue
-        r = strip(c["recv"])
+        r = deref(c["recv"])
         if r.get("k") == "Struct" and "ops::range::Range" in norm(r["res"].get("path", "")):
-            fl = {x["name"]: strip(x["e"]) for x in r["fields"]}
+            fl = {x["name"]: deref(x["e"]) for x in r["fields"]}
             if lit_value(fl.get("start", {})) == 0 and fl.get("end", {}).get("m") == "len" and _reg_field(fl["end"]["recv"]):
                 return True
         if r.get("k") == "MethodCall" and r["m"] == "get" and _reg_field(r["recv"]):
